@@ -5,7 +5,9 @@ import re
 from . import mutate
 
 WORDS = ['a', 'b', 'c', 'x', 'y', 'foo', 'int', 'if', '1', '2', '0x10', '1.5', '+', '-', '*', '/', '<<', '==', '&&', '!', '~', '=', ';', '[', ']', '{', '}', '.', '->', '?', ':',
-         '"str"', '"a,b"', '"(x"', "'c'", "','", '"\\"q\\""', "'\\''", 'L"w"', '...', '::', '%', '^', '|', '+=', '++', '1e+5', '.5', '0', 'sizeof', 'x1', '_y']
+         '"str"', '"a,b"', '"(x"', "'c'", "','", '"\\"q\\""', "'\\''", 'L"w"', '...', '::', '%', '^', '|', '+=', '++', '1e+5', '.5', '0', 'sizeof', 'x1', '_y',
+         # every remaining punctuator (each has its own entry in the spelling table) and prefixed literals whose quotes and backslashes must be escaped by '#'
+         '>>=', '<<=', '>>', '<=', '>=', '!=', '-=', '*=', '/=', '%=', '&=', '^=', '|=', '--', '&', '||', '<', '>', 'L"q\\n"', 'u8"a\\"b"', "L'\\\\'", "U'\"'", 'u"\\\\"', "u'\\''", '"a\\\\b"', 'L"\\""']
 
 
 def glue_ok(a, b):
@@ -128,7 +130,9 @@ class PP:
             lines.append('#define STRZ(x) #x')
             self.macros['STRZ'] = ('func', 1, False, True)
             glued = ['a/b', 'a*b', 'a+b', 'a<b', 'a.b', 'a->b', '(a)/(b)', '1/2', 'a/ b', 'a /b', 'a / b', 'x%y', 'x^y', 'p&q', 'p|q', '!a', '~a', 'a?b:c', 'a[1]', '"s"/2', "'c'*2", 'a/*c*/b', 'a//c\n', 'a /**/ /b', 'i=j', 'i==j', 'f(1,2)',
-                     'a/b/c', '-a', 'a-b', 'a--', '*p', '&x', 'a,b', '{a;b}', '1.5/2.', '0x1p-3/a']
+                     'a/b/c', '-a', 'a-b', 'a--', '*p', '&x', 'a,b', '{a;b}', '1.5/2.', '0x1p-3/a',
+                     'a>>=b', 'a >>= 3', 'a<<=b', 'a>>b', 'a<=b', 'a>=b', 'a!=b', 'a-=b', 'a&=b', 'a|=b', 'a^=b', 'a%=b', 'a*=b', 'a/=b', 'a&&b', 'a||b', 'a++', 'a...', 'L"q\\n"', 'u8"a\\"b"', "L'\\\\'", "U'\"'", 'u"\\\\"',
+                     'L"a" "b\\""', "a+\\\nb", "a\\\n+b", "(1+\\\n2)", "a\\\nb", 'x = L"\\\\" + u\'\\\'\'']
         text = []
         # an invocation whose '(' and first argument tokens come from another macro's body, continued in the source,
         # with a macro in the same argument that expands to tokens containing a comma
@@ -151,6 +155,12 @@ class PP:
                     rest = ''.join(' , ' + r.choice(['3', 'y', 'CM%d' % i, '(CM%d)' % i]) for _ in range(np - 1))
                     text.append('OP%d %s CM%d %s%s ) ;' % (i, r.choice(['', '1 +', 'z']), i, r.choice(['', '- 2']), rest))
                 continue
+            funcs = [n for n in names if self.macros[n][0] == 'func']
+            if funcs and r.random() < 0.06:
+                # a function-like macro name whose look-ahead for '(' runs into a directive: the name stays, the directive takes effect
+                zq = 'ZQ%d' % len(text)
+                text.append('%s %s\n%s\n%s ;' % (r.choice(['int', 'a +', '']), r.choice(funcs), r.choice(['#define %s 9' % zq, '#undef ZQ0', '#line 77', '#', '#pragma foo', '#define %s(x) x' % zq]),
+                                               r.choice(['= %s' % zq, '+ 1', 'x', '[2]', '= %s (3)' % zq])))
             if k < 0.6:
                 text.append(self.invoke(r.choice(names), 2, names))
             elif k < 0.7:
@@ -169,7 +179,15 @@ class PP:
                                       '#pragma omp %s (1, 2) %s' % (r.choice(names), r.choice(names))]))
             else:
                 text.append(' '.join(r.choice(WORDS) for _ in range(r.randrange(1, 6))) + ' ;')
-        return '\n'.join(lines + text) + '\n'
+        out = '\n'.join(lines + text) + '\n'
+        if r.random() < 0.3:
+            # backslash-newline directly after a token character (no blank before the backslash): removed in phase 2, it neither separates nor spaces tokens
+            for _ in range(r.randrange(1, 5)):
+                cand = [i for i in range(1, len(out) - 1) if out[i - 1] not in ' \t\n\\' and out[i] != '\n']
+                if cand:
+                    i = r.choice(cand)
+                    out = out[:i] + '\\\n' + out[i:]
+        return out
 
 
 REDEF = [
